@@ -174,6 +174,13 @@ Qed.
 
 Definition OFF : Z := 400.
 
+Lemma bound_aux x a q b t : x < a * q -> 0 < q <= t -> 0 <= a <= b -> x < b * t.
+Proof. intros H1 H2 H3. assert (a * q <= b * q) by nia. assert (b * q <= b * t) by nia. lia. Qed.
+Lemma scale_le_aux a b c q : 0 < q -> b * c <= a -> b * (c * q) <= a * q.
+Proof. intros. nia. Qed.
+Lemma scale_lt_aux a b c q : 0 < q -> a < b * c -> a * q < b * (c * q).
+Proof. intros. nia. Qed.
+
 Theorem imul_post C a b : fmt_ok2 C -> buf_ok C a -> buf_ok C b ->
   mag_post C true 1 1 (f_mag C a * f_mag C b) (2 ^ c_bias C)
            (negb (Bool.eqb (f_neg C a) (f_neg C b))) (mbf_imul C a b).
@@ -249,8 +256,12 @@ Proof.
   { replace (E + k + OFF) with (k + (E + OFF)) by lia. apply pow2_split; lia. }
   assert (HpE : 0 < 2 ^ (E + OFF)) by (apply pow2_pos; lia).
   (* V <= Nm S < V + 2 * 2^(E+k+OFF) *)
-  assert (HVlo : man2 * 2 ^ (E + k + OFF) <= Nm * S) by (rewrite HNS, HEk; nia).
-  assert (HVhi : Nm * S < (man2 + 2) * 2 ^ (E + k + OFF)) by (rewrite HNS, HEk; nia).
+  assert (HVlo : man2 * 2 ^ (E + k + OFF) <= Nm * S).
+  { rewrite HNS, HEk. apply scale_le_aux; [lia|]. clear - Hdiv Hq1 H2k. nia. }
+  assert (HVhi1 : Nm * S < (man1 + 1) * 2 ^ (E + k + OFF)).
+  { rewrite HNS, HEk. apply scale_lt_aux; [lia|]. lia. }
+  assert (HVhi : Nm * S < (man2 + 2) * 2 ^ (E + k + OFF)).
+  { rewrite HNS, HEk. apply scale_lt_aux; [lia|]. clear - Hdiv Hq1 H2k. nia. }
   assert (E8 : 2 ^ (mbits C + 8) = 32 * L).
   { unfold L. replace (mbits C + 8) with (5 + (mbits C + 3)) by lia. rewrite pow2_split by lia. reflexivity. }
   assert (E7 : 2 ^ (mbits C + 7) = 16 * L).
@@ -263,15 +274,18 @@ Proof.
   { (* _normalise is entered with an exponent <= 0: zero *)
     rewrite normalise_unfold. destruct (Z.leb_spec (E + k) 0); [|lia]. rewrite orb_true_r.
     apply mag_post_zeros; try assumption. split; [exact HNm0|].
-    assert (2 ^ (E + k + OFF) <= 2 ^ OFF) by (apply pow2_le; unfold OFF in *; lia).
-    assert (Nm * S < 2 ^ mbits C * 2 ^ c_bias C * S) by (rewrite <- E8S, E8; nia).
-    nia. }
+    assert (Hqt : 2 ^ (E + k + OFF) <= 2 ^ OFF) by (apply pow2_le; unfold OFF in *; lia).
+    assert (Hq0 : 0 < 2 ^ (E + k + OFF)) by (apply pow2_pos; unfold OFF in *; lia).
+    assert (HX : Nm * S < 2 ^ mbits C * 2 ^ c_bias C * S).
+    { rewrite <- E8S, E8. apply (bound_aux _ (man2 + 2) (2 ^ (E + k + OFF))); [exact HVhi | lia | lia]. }
+    clear - HX HS. nia. }
   assert (Hman2 : 0 < man2 < c_den_upper C) by (rewrite (ok_den_upper C HC), E8; lia).
   pose proof (normalise_val C a (E + k) man2 neg OFF HC (proj1 Ha) Hman2 ltac:(lia) ltac:(unfold OFF; lia)) as Hnp.
   set (r := mbf_normalise C a (E + k) man2 neg) in *.
   (* bound on the shift count of _normalise: man2 >= L, man2 * 2^k' < 32 L *)
   assert (Hk' : forall k', 0 <= k' -> man2 * 2 ^ k' < 2 ^ (mbits C + 8) -> 2 ^ k' <= 31).
-  { intros k' Hk'0 Hlt. rewrite E8 in Hlt. assert (0 < 2 ^ k') by (apply pow2_pos; lia). nia. }
+  { intros k' Hk'0 Hlt. rewrite E8 in Hlt. assert (0 < 2 ^ k') by (apply pow2_pos; lia).
+    clear - Hlt H Hq2 HL HP. nia. }
   assert (HA := norm_partA C true 1 1 Nm (2 ^ c_bias C) neg OFF (E + k) man2 r S HC ltac:(unfold OFF; lia) HS HDn HSD
                   ltac:(lia) ltac:(lia) Hnp).
   assert (HBC := norm_partBC C Nm (2 ^ c_bias C) neg OFF (E + k) man2 r S HC ltac:(unfold OFF; lia) HS HDn HSD
@@ -286,7 +300,8 @@ Proof.
       assert (Eu : 2 ^ (E + k + OFF) = 2 ^ k' * u).
       { unfold u. rewrite <- pow2_split by lia. f_equal. lia. }
       rewrite Eu in HVlo, HVhi. rewrite Eu.
-      rewrite Z.abs_eq by lia. nia.
+      rewrite Z.abs_eq by lia. assert (0 < 2 ^ k') by (apply pow2_pos; lia).
+      clear - HVlo HVhi Hk' Hu H. nia.
     - (* zero clause: man2 < T with 16 | T, so man1 < T as well *)
       intros HV.
       destruct (Z.le_gt_cases (E + k) (mbits C + 4)) as [Hsm|Hbg].
@@ -296,17 +311,18 @@ Proof.
         { unfold T. change 16 with (2 ^ 4). rewrite <- !pow2_split by (unfold OFF in *; lia). f_equal. lia. }
         rewrite ET in HV |- *.
         assert (Hp2 : 0 < 2 ^ (E + k + OFF)) by (apply pow2_pos; unfold OFF in *; lia).
-        assert (Hm2 : man2 < 16 * T) by nia.
+        assert (Hm2 : man2 < 16 * T) by (clear - HV Hp2; nia).
         assert (Hm1 : man1 < 16 * T).
         { destruct (Z.eq_dec man2 man1) as [|Hne]; [lia|].
           assert (E9 : man1 mod 16 = 9) by (apply Hq3; lia). lia. }
-        rewrite HNS, HEk. rewrite HEk in Hp2. nia.
+        clear - HVhi1 Hm1 Hp2. nia.
       + exfalso. assert (2 ^ (mbits C + 5 + OFF) <= 2 ^ (E + k + OFF)) by (apply pow2_le; unfold OFF in *; lia).
         assert (E5 : 2 ^ (mbits C + 5 + OFF) = 32 * 2 ^ mbits C * 2 ^ OFF).
         { change 32 with (2 ^ 5). rewrite <- !pow2_split by (unfold OFF; lia). f_equal. lia. }
         assert (E8' : 2 ^ (mbits C + 8) = 256 * 2 ^ mbits C).
         { change 256 with (2 ^ 8). rewrite <- pow2_split by lia. f_equal. lia. }
-        rewrite E8' in HV. rewrite HL in Hq2. nia. }
+        rewrite E8' in HV. rewrite HL in Hq2. rewrite H2P in *.
+        clear - HV H E5 Hq2 HP HOFF Hg. nia. }
   assert (HBC' : (match r return Prop with
                   | Host x => x = 5 /\ (2 ^ mbits C - 1) * 2 ^ 255 * 2 ^ c_bias C < Nm
                   | Ok _ => True
@@ -315,10 +331,153 @@ Proof.
   { apply HBC.
     - assert (0 < 2 ^ (255 + OFF)) by (apply pow2_pos; unfold OFF; lia). lia.
     - intros k' Hk'0 Hr' _. specialize (Hk' k' Hk'0 (proj2 Hr')).
-      assert (0 < 2 ^ (E + k + OFF)) by (apply pow2_pos; unfold OFF in *; lia). nia. }
+      assert (Hq0 : 0 < 2 ^ (E + k + OFF)) by (apply pow2_pos; unfold OFF in *; lia).
+      clear - HVhi Hk' Hq0. nia. }
   destruct HBC' as [HB HCv]. split; [|exact HCv].
   destruct r as [b0|e0|x0|]; try contradiction.
   - specialize (HA' b0 eq_refl). destruct HA' as [Hok Hrest]. split; [exact Hok|].
-    destruct (f_zero b0); [exact Hrest|]. rewrite !Z.mul_1_l in Hrest. rewrite Z.mul_1_l. exact Hrest.
+    destruct (f_zero b0); [exact Hrest|]. rewrite !Z.mul_1_l in Hrest. rewrite !Z.mul_1_l. exact Hrest.
   - exact HB.
+Qed.
+
+(* ------------------------------------------------------------------------------------------------ *)
+(* commutativity, bit for bit (result or raised error) *)
+
+Theorem imul_comm C a b : fmt_ok C -> buf_ok C a -> buf_ok C b -> mbf_imul C a b = mbf_imul C b a.
+Proof.
+  intros HC Ha Hb. unfold mbf_imul. rewrite !is_zero_spec. rewrite (orb_comm (f_zero b)).
+  destruct (f_zero a || f_zero b); [reflexivity|].
+  rewrite !denormalise_spec by assumption. cbv beta iota zeta.
+  replace (f_exp b + (f_exp a - c_bias C - 8)) with (f_exp a + (f_exp b - c_bias C - 8)) by lia.
+  replace (256 * f_man C b * (256 * f_man C a)) with (256 * f_man C a * (256 * f_man C b)) by lia.
+  replace (Bool.eqb (f_neg C b) (f_neg C a)) with (Bool.eqb (f_neg C a) (f_neg C b))
+    by (destruct (f_neg C a), (f_neg C b); reflexivity).
+  destruct (f_exp a + (f_exp b - c_bias C - 8) <? - (c_shift C + 8)); [reflexivity|].
+  destruct (mbf_bring_to_range C (256 * f_man C a * (256 * f_man C b)) (f_exp a + (f_exp b - c_bias C - 8))
+              (Z.shiftr (c_den_mask C) 4) (Z.shiftr (c_den_upper C) 4)) as [[m e]| | |]; cbn [bind]; try reflexivity.
+  cbv beta iota.
+  destruct (Z.land m 15 =? 9); cbn [bind];
+    rewrite (normalise_buf_indep C a b) by (try assumption; apply Ha || apply Hb); reflexivity.
+Qed.
+
+(* ------------------------------------------------------------------------------------------------ *)
+(* x * 1 = x, bit for bit for every non-zero encoding; zero encodings give the canonical zero *)
+
+Lemma f_encode_self C b : fmt_ok C -> buf_ok C b ->
+  f_encode C (f_neg C b) (f_exp b) (f_man C b) = b.
+Proof.
+  intros HC Hb. pose proof (f_man_bound C b HC) as Hm. pose proof (f_exp_bound C b HC Hb) as He.
+  destruct (f_encode_fields C (f_neg C b) (f_exp b) (f_man C b) HC He Hm) as (E1 & E2 & E3).
+  pose proof (f_encode_ok C (f_neg C b) (f_exp b) (f_man C b) HC He Hm) as Hok.
+  set (b' := f_encode C (f_neg C b) (f_exp b) (f_man C b)) in *.
+  (* same raw field and same exponent byte *)
+  assert (Hraw : f_raw b' = f_raw b).
+  { pose proof (f_raw_bound C b HC Hb) as Hr. pose proof (f_raw_bound C b' HC Hok) as Hr'.
+    pose proof (mbits_ge C HC).
+    assert (HP : 0 < 2 ^ (mbits C - 1)) by (apply pow2_pos; lia).
+    rewrite (pow2_pred (mbits C)) in Hr, Hr' by lia.
+    unfold f_neg in E2. unfold f_man in E3.
+    set (P := 2 ^ (mbits C - 1)) in *.
+    destruct (Z.leb_spec P (f_raw b')) as [H1|H1]; destruct (Z.leb_spec P (f_raw b)) as [H2|H2]; try discriminate.
+    - rewrite (mod_hi P (f_raw b')), (mod_hi P (f_raw b)) in E3 by lia. lia.
+    - rewrite (Z.mod_small (f_raw b') P), (Z.mod_small (f_raw b) P) in E3 by lia. lia. }
+  apply (f_raw_inj C b' b HC Hok Hb E1 Hraw).
+Qed.
+
+Theorem imul_one C a : fmt_ok2 C -> buf_ok C a ->
+  mbf_imul C a (c_one C) = Ok (if f_zero a then zeros (c_size C) else a) /\
+  mbf_imul C (c_one C) a = Ok (if f_zero a then zeros (c_size C) else a).
+Proof.
+  intros HC2 Ha. pose proof HC2 as [HC Hsh].
+  pose proof (mbits_ge C HC) as Hg. pose proof (mbits_le C HC) as Hl.
+  assert (Hbias : c_bias C = 128 + mbits C) by apply (ok_bias C HC).
+  set (P := 2 ^ (mbits C - 1)) in *. assert (HP : 0 < P) by (apply pow2_pos; lia).
+  assert (H2P : 2 ^ mbits C = 2 * P) by (apply pow2_pred; lia).
+  assert (Hone_ok : buf_ok C (c_one C)).
+  { rewrite one_encode by assumption. apply f_encode_ok; [assumption | unfold byte_ok; lia | fold P; lia]. }
+  destruct (f_encode_fields C false 129 P HC ltac:(unfold byte_ok; lia) ltac:(fold P; lia)) as (E1 & E2 & E3).
+  rewrite <- one_encode in E1, E2, E3 by assumption.
+  assert (H1 : mbf_imul C a (c_one C) = Ok (if f_zero a then zeros (c_size C) else a)).
+  { destruct (f_zero a) eqn:Hza.
+    { unfold mbf_imul. rewrite is_zero_spec, Hza. reflexivity. }
+    assert (Hzo : f_zero (c_one C) = false) by (unfold f_zero; rewrite E1; reflexivity).
+    pose proof (f_man_bound C a HC) as Hma. pose proof (f_exp_bound C a HC Ha) as Hea.
+    assert (Hea1 : 1 <= f_exp a) by (unfold f_zero in Hza; lia).
+    fold P in Hma. rewrite H2P in Hma.
+    (* unfold imul down to _bring_to_range *)
+    unfold mbf_imul. rewrite !is_zero_spec, Hza, Hzo. cbn [orb].
+    rewrite !denormalise_spec by assumption. cbv beta iota zeta. rewrite E1, E2, E3, Hsh.
+    replace (f_exp a + (129 - c_bias C - 8)) with (f_exp a - (mbits C + 7)) by lia.
+    destruct (Z.ltb_spec (f_exp a - (mbits C + 7)) (- (mbits C - 1 + 8))); [lia|].
+    set (L := 2 ^ (mbits C + 3)).
+    assert (HL : L = 16 * P).
+    { unfold L, P. replace (mbits C + 3) with (4 + (mbits C - 1)) by lia. rewrite pow2_split by lia. reflexivity. }
+    assert (Hsl : Z.shiftr (c_den_mask C) 4 = L).
+    { rewrite (ok_den_mask C HC), Z.shiftr_div_pow2 by lia. unfold L.
+      replace (mbits C + 7) with (mbits C + 3 + 4) by lia. rewrite pow2_split by lia. apply Z.div_mul. lia. }
+    assert (Hsu : Z.shiftr (c_den_upper C) 4 = 2 * L).
+    { rewrite (ok_den_upper C HC), Z.shiftr_div_pow2 by lia. unfold L.
+      replace (mbits C + 8) with (1 + (mbits C + 3) + 4) by lia. rewrite !pow2_split by lia.
+      rewrite Z.div_mul by lia. reflexivity. }
+    rewrite Hsl, Hsu.
+    set (ma := f_man C a) in *.
+    (* the product is q * 2^j with L < q <= 2L: (16 ma) * 2^(m+11), or 2L * 2^(m+10) for ma = P *)
+    assert (Hq : exists q j, L < q <= 2 * L /\ (j <= 999)%nat /\ 256 * ma * (256 * P) = q * 2 ^ Z.of_nat j /\
+               ((q = 16 * ma /\ Z.of_nat j = mbits C + 11) \/ (q = 2 * L /\ ma = P /\ Z.of_nat j = mbits C + 10))).
+    { destruct (Z.eq_dec ma P) as [EP|NP].
+      - exists (2 * L), (Z.to_nat (mbits C + 10)). rewrite Z2Nat.id by lia.
+        split; [lia|]. split; [lia|]. split; [|right; lia].
+        rewrite EP, HL. replace (mbits C + 10) with (11 + (mbits C - 1)) by lia. rewrite pow2_split by lia. fold P.
+        change (2 ^ 11) with 2048. lia.
+      - exists (16 * ma), (Z.to_nat (mbits C + 11)). rewrite Z2Nat.id by lia.
+        split; [lia|]. split; [lia|]. split; [|left; lia].
+        replace (mbits C + 11) with (12 + (mbits C - 1)) by lia. rewrite pow2_split by lia. fold P.
+        change (2 ^ 12) with 4096. lia. }
+    destruct Hq as (q & j & Hqr & Hj & Hprod & Hcase).
+    rewrite Hprod. unfold mbf_bring_to_range. change 1000%nat with (S 999).
+    assert (H2j : 0 < 2 ^ Z.of_nat j) by (apply pow2_pos; lia).
+    rewrite bloop1_exit by (rewrite Z.abs_eq by nia; nia). cbn [bind]. cbv beta iota.
+    rewrite (bloop2_exact C L L q ltac:(lia) Hqr j 999 _ Hj). cbn [bind]. cbv beta iota.
+    rewrite land15.
+    assert (Hq16 : q mod 16 = 0).
+    { destruct Hcase as [(-> & _)|(-> & _)].
+      - replace (16 * ma) with (ma * 16) by lia. apply Z.mod_mul. lia.
+      - rewrite HL. replace (2 * (16 * P)) with (2 * P * 16) by lia. apply Z.mod_mul. lia. }
+    rewrite Hq16. change (0 =? 9) with false. cbv iota. cbn [bind].
+    rewrite bind_ret.
+    (* _normalise shifts back by 4 (or 3) and rounds exactly *)
+    assert (Hq0 : 0 < q < c_den_upper C).
+    { rewrite (ok_den_upper C HC). replace (mbits C + 8) with (9 + (mbits C - 1)) by lia.
+      rewrite pow2_split by lia. fold P. change (2 ^ 9) with 512. lia. }
+    destruct (normalise_gen C a (f_exp a - (mbits C + 7) + Z.of_nat j) q
+                (negb (Bool.eqb (f_neg C a) false)) HC (proj1 Ha) Hq0 ltac:(lia))
+      as (k & Hk & Hrange & Hk0 & Hres).
+    rewrite Hres. rewrite (ok_den_mask C HC), (ok_den_upper C HC) in Hrange.
+    assert (E7 : 2 ^ (mbits C + 7) = 256 * P).
+    { unfold P. replace (mbits C + 7) with (8 + (mbits C - 1)) by lia. rewrite pow2_split by lia. reflexivity. }
+    assert (E8 : 2 ^ (mbits C + 8) = 512 * P).
+    { unfold P. replace (mbits C + 8) with (9 + (mbits C - 1)) by lia. rewrite pow2_split by lia. reflexivity. }
+    rewrite E7, E8 in Hrange.
+    (* determine k: q * 2^k in [256P - 1, 512P) *)
+    assert (H2k : 0 < 2 ^ k) by (apply pow2_pos; lia).
+    assert (Hkk : q * 2 ^ k = 256 * ma /\ f_exp a - (mbits C + 7) + Z.of_nat j - k = f_exp a).
+    { destruct Hcase as [(Eq & Ej)|(Eq & EP & Ej)].
+      - assert (k = 4).
+        { destruct (Z.lt_trichotomy k 4) as [Hlt|[|Hgt]]; [exfalso|assumption|exfalso].
+          - assert (2 ^ k <= 2 ^ 3) by (apply pow2_le; lia). change (2 ^ 3) with 8 in *. nia.
+          - assert (2 ^ 5 <= 2 ^ k) by (apply pow2_le; lia). change (2 ^ 5) with 32 in *. nia. }
+        subst k. change (2 ^ 4) with 16. lia.
+      - assert (k = 3).
+        { destruct (Z.lt_trichotomy k 3) as [Hlt|[|Hgt]]; [exfalso|assumption|exfalso].
+          - assert (2 ^ k <= 2 ^ 2) by (apply pow2_le; lia). change (2 ^ 2) with 4 in *. nia.
+          - assert (2 ^ 4 <= 2 ^ k) by (apply pow2_le; lia). change (2 ^ 4) with 16 in *. nia. }
+        subst k. change (2 ^ 3) with 8. lia. }
+    destruct Hkk as [Hm' He']. rewrite Hm', He'.
+    unfold norm_result. rewrite round_even8_exact.
+    destruct (Z.eqb_spec ma (2 ^ mbits C)); [lia|].
+    destruct (Z.gtb_spec (f_exp a) 255); [lia|].
+    unfold clamp0. destruct (Z.leb_spec (f_exp a) 0); [lia|].
+    f_equal. replace (negb (Bool.eqb (f_neg C a) false)) with (f_neg C a) by (destruct (f_neg C a); reflexivity).
+    apply f_encode_self; assumption. }
+  split; [exact H1|]. rewrite <- H1. symmetry. apply imul_comm; assumption.
 Qed.
